@@ -300,7 +300,15 @@ fn build_batch(specs: Vec<GrammarSpec>, out: &Path, crates: usize, plan: &str, s
                 if plan == "macro" { format!("peginator_macro = {{ path = \"{}/macro\" }}\n", std::env::var("VERIF_REPO_PATH").unwrap_or_else(|_| "/repo".into())) } else { String::new() },
                 // compile-only plan (C03): every second crate is a 2024-edition crate (`gen` is a keyword there, other lints
                 // and capture rules differ); everything else uses the repository's own edition
-                std::env::var("VERIF_EDITION").unwrap_or_else(|_| if (plan == "types" && ci % 2 == 1) || plan == "regress_c03" { "2024".into() } else { "2021".into() })
+                std::env::var("VERIF_EDITION").unwrap_or_else(|_| if plan == "regress_c03" {
+                    "2024".into()
+                } else if plan == "types" {
+                    // the edition of the crate that includes the generated code: 2021 (the repository's), 2024 (`gen` is a
+                    // keyword, other capture rules), 2018 (closures capture whole variables)
+                    ["2021", "2024", "2018"][ci % 3].into()
+                } else {
+                    "2021".into()
+                })
             ),
         );
         let mut main = String::from("#![forbid(unsafe_code)]\n#![allow(warnings)]\n");
